@@ -49,7 +49,51 @@ var codec = gsmsgv2.NewMessageHandler()
 var (
 	ReqPeer  = peer.ID("peer-requestor")
 	RespPeer = peer.ID("peer-responder")
+	ReqPeerB = peer.ID("peer-requestor-b") // optional second requestor (node 2)
 )
+
+// node indices
+const (
+	NodeA    = 0 // requestor
+	NodeResp = 1 // responder
+	NodeB    = 2 // second requestor (only with NewSimB)
+)
+
+func peerOfNode(n int) peer.ID {
+	switch n {
+	case NodeA:
+		return ReqPeer
+	case NodeResp:
+		return RespPeer
+	}
+	return ReqPeerB
+}
+
+// message directions: 0 A->responder, 1 responder->A, 2 B->responder, 3 responder->B
+func dirOf(from int, to peer.ID) int {
+	switch from {
+	case NodeA:
+		return 0
+	case NodeB:
+		return 2
+	}
+	if to == ReqPeerB {
+		return 3
+	}
+	return 1
+}
+
+func dirEnds(dir int) (from, to int) {
+	switch dir {
+	case 0:
+		return NodeA, NodeResp
+	case 1:
+		return NodeResp, NodeA
+	case 2:
+		return NodeB, NodeResp
+	}
+	return NodeResp, NodeB
+}
 
 // ---------------------------------------------------------------- the case's DAG
 
@@ -337,12 +381,9 @@ type endpoint struct {
 	recv gsnet.Receiver
 }
 
-func (e *endpoint) send(m gsmsg.GraphSyncMessage) error {
+func (e *endpoint) send(to peer.ID, m gsmsg.GraphSyncMessage) error {
 	s := e.s
-	self := ReqPeer
-	if e.side == 1 {
-		self = RespPeer
-	}
+	self := peerOfNode(e.side)
 	var buf bytes.Buffer
 	if err := codec.ToNet(self, m, &buf); err != nil {
 		s.netErr("encode: " + err.Error())
@@ -354,30 +395,34 @@ func (e *endpoint) send(m gsmsg.GraphSyncMessage) error {
 		return err
 	}
 	s.SendGate[e.side].Pass()
+	dir := dirOf(e.side, to)
 	s.mu.Lock()
-	p := &Packet{Dir: e.side, N: s.sent[e.side], Msg: dm}
-	s.sent[e.side]++
+	p := &Packet{Dir: dir, N: s.sent[dir], Msg: dm}
+	s.sent[dir]++
 	s.summarise(p)
 	p.SentSeq = s.logLocked(Event{Kind: EvSend, Side: e.side, Req: -1, Pkt: p})
-	s.fifo[e.side] = append(s.fifo[e.side], p)
+	s.fifo[dir] = append(s.fifo[dir], p)
 	s.Packets = append(s.Packets, p)
 	s.mu.Unlock()
 	return nil
 }
 
 func (e *endpoint) SendMessage(ctx context.Context, p peer.ID, m gsmsg.GraphSyncMessage) error {
-	return e.send(m)
+	return e.send(p, m)
 }
 func (e *endpoint) SetDelegate(r gsnet.Receiver)              { e.recv = r }
 func (e *endpoint) ConnectTo(context.Context, peer.ID) error { return nil }
-func (e *endpoint) NewMessageSender(context.Context, peer.ID, gsnet.MessageSenderOpts) (gsnet.MessageSender, error) {
-	return &sender{e}, nil
+func (e *endpoint) NewMessageSender(_ context.Context, p peer.ID, _ gsnet.MessageSenderOpts) (gsnet.MessageSender, error) {
+	return &sender{e, p}, nil
 }
 func (e *endpoint) ConnectionManager() gsnet.ConnManager { return nopConnManager{} }
 
-type sender struct{ e *endpoint }
+type sender struct {
+	e  *endpoint
+	to peer.ID
+}
 
-func (s *sender) SendMsg(ctx context.Context, m gsmsg.GraphSyncMessage) error { return s.e.send(m) }
+func (s *sender) SendMsg(ctx context.Context, m gsmsg.GraphSyncMessage) error { return s.e.send(s.to, m) }
 func (s *sender) Close() error                                                { return nil }
 func (s *sender) Reset() error                                                { return nil }
 
@@ -429,7 +474,7 @@ func (st *store) linkSystem() linking.LinkSystem {
 		return &buf, func(l datamodel.Link) error {
 			c := l.(cidlink.Link).Cid
 			data := append([]byte{}, buf.Bytes()...)
-			if st.side == 0 {
+			if st.side != NodeResp {
 				if g, ok := s.WriteGate[s.W.names[c]]; ok {
 					g.Pass()
 				}
@@ -457,6 +502,7 @@ func pathOf(lc linking.LinkContext) string {
 
 type ReqRun struct {
 	Idx      int
+	Node     int // issuing node: NodeA or NodeB
 	Q        *Query
 	ID       graphsync.RequestID
 	Prog     []graphsync.ResponseProgress
@@ -479,19 +525,20 @@ type Sim struct {
 	seq     int
 	Log     []Event
 	Packets []*Packet
-	fifo    [2][]*Packet
-	sent    [2]int
+	fifo    [4][]*Packet
+	sent    [4]int
 	NetErrs []string
 
-	eps   [2]*endpoint
-	Nodes [2]graphsync.GraphExchange
-	st    [2]*store
+	eps   [3]*endpoint
+	Nodes [3]graphsync.GraphExchange
+	st    [3]*store
+	HasB  bool
 
 	Reqs []*ReqRun
 	ids  map[graphsync.RequestID]int
 
 	// gates (disabled unless the case enables them)
-	SendGate     [2]*Gate      // SendMsg of side i parks (backpressure of the network)
+	SendGate     [3]*Gate      // SendMsg of node i parks (backpressure of the network)
 	RespReadGate []*Gate       // responder store read of request i parks
 	ReqHookGate  []*Gate       // requestor incoming-block hook of request i parks (after the block was loaded)
 	WriteGate    map[int]*Gate // requestor store-write commit of block c parks
@@ -562,9 +609,14 @@ func (s *Sim) summarise(p *Packet) {
 // NewSim creates the two nodes.  loc / rem: block indices held by requestor / responder.
 // nReq = number of request slots (gates are per slot).
 func NewSim(w *World, loc, rem []int, nReq int, opts ...gsimpl.Option) *Sim {
-	s := &Sim{W: w, ids: map[graphsync.RequestID]int{}, WriteGate: map[int]*Gate{}, nReqBlock: map[int]int{}, nRespBlock: map[int]int{}}
+	return NewSimB(w, loc, rem, nil, false, nReq, opts...)
+}
+
+// NewSimB: as NewSim, optionally with a second requestor node (NodeB) holding the blocks locB.
+func NewSimB(w *World, loc, rem, locB []int, withB bool, nReq int, opts ...gsimpl.Option) *Sim {
+	s := &Sim{W: w, ids: map[graphsync.RequestID]int{}, WriteGate: map[int]*Gate{}, nReqBlock: map[int]int{}, nRespBlock: map[int]int{}, HasB: withB}
 	s.Ctx, s.Cancel = context.WithCancel(context.Background())
-	for i := 0; i < 2; i++ {
+	for i := 0; i < 3; i++ {
 		s.eps[i] = &endpoint{s: s, side: i}
 		s.st[i] = &store{s: s, side: i, blocks: map[cid.Cid][]byte{}}
 		s.SendGate[i] = &Gate{Name: fmt.Sprintf("send%d", i)}
@@ -574,17 +626,22 @@ func NewSim(w *World, loc, rem []int, nReq int, opts ...gsimpl.Option) *Sim {
 		s.ReqHookGate = append(s.ReqHookGate, &Gate{Name: fmt.Sprintf("r%d", i)})
 	}
 	for _, i := range loc {
-		s.st[0].blocks[w.D.Cids[i]] = w.D.Data[w.D.Cids[i]]
+		s.st[NodeA].blocks[w.D.Cids[i]] = w.D.Data[w.D.Cids[i]]
 	}
 	for _, i := range rem {
-		s.st[1].blocks[w.D.Cids[i]] = w.D.Data[w.D.Cids[i]]
+		s.st[NodeResp].blocks[w.D.Cids[i]] = w.D.Data[w.D.Cids[i]]
 	}
-	s.eps[0].recv, s.eps[1].recv = nil, nil
-	s.Nodes[0] = gsimpl.New(s.Ctx, s.eps[0], s.st[0].linkSystem(), opts...)
-	s.Nodes[1] = gsimpl.New(s.Ctx, s.eps[1], s.st[1].linkSystem(), opts...)
+	for _, i := range locB {
+		s.st[NodeB].blocks[w.D.Cids[i]] = w.D.Data[w.D.Cids[i]]
+	}
+	s.Nodes[NodeA] = gsimpl.New(s.Ctx, s.eps[NodeA], s.st[NodeA].linkSystem(), opts...)
+	s.Nodes[NodeResp] = gsimpl.New(s.Ctx, s.eps[NodeResp], s.st[NodeResp].linkSystem(), opts...)
+	if withB {
+		s.Nodes[NodeB] = gsimpl.New(s.Ctx, s.eps[NodeB], s.st[NodeB].linkSystem(), opts...)
+	}
 	// the cooperative responder accepts every request; the request index travels in the response's
 	// context so that the responder's store reads can be attributed (and gated) per request
-	s.Nodes[1].RegisterIncomingRequestHook(func(p peer.ID, r graphsync.RequestData, ha graphsync.IncomingRequestHookActions) {
+	s.Nodes[NodeResp].RegisterIncomingRequestHook(func(p peer.ID, r graphsync.RequestData, ha graphsync.IncomingRequestHookActions) {
 		ha.ValidateRequest()
 		s.mu.Lock()
 		idx := s.reqIndex(r.ID())
@@ -594,7 +651,7 @@ func NewSim(w *World, loc, rem []int, nReq int, opts ...gsimpl.Option) *Sim {
 			s.OnIncoming(idx, r, ha)
 		}
 	})
-	s.Nodes[1].RegisterOutgoingBlockHook(func(p peer.ID, r graphsync.RequestData, bd graphsync.BlockData, ha graphsync.OutgoingBlockHookActions) {
+	s.Nodes[NodeResp].RegisterOutgoingBlockHook(func(p peer.ID, r graphsync.RequestData, bd graphsync.BlockData, ha graphsync.OutgoingBlockHookActions) {
 		s.mu.Lock()
 		idx := s.reqIndex(r.ID())
 		s.nRespBlock[idx]++
@@ -605,7 +662,7 @@ func NewSim(w *World, loc, rem []int, nReq int, opts ...gsimpl.Option) *Sim {
 			s.OnRespBlock(idx, nth, bd, ha)
 		}
 	})
-	s.Nodes[1].RegisterRequestUpdatedHook(func(p peer.ID, r graphsync.RequestData, upd graphsync.RequestData, ha graphsync.RequestUpdatedHookActions) {
+	s.Nodes[NodeResp].RegisterRequestUpdatedHook(func(p peer.ID, r graphsync.RequestData, upd graphsync.RequestData, ha graphsync.RequestUpdatedHookActions) {
 		s.mu.Lock()
 		idx := s.reqIndex(r.ID())
 		s.mu.Unlock()
@@ -613,37 +670,48 @@ func NewSim(w *World, loc, rem []int, nReq int, opts ...gsimpl.Option) *Sim {
 			s.OnUpdate(idx, upd, ha)
 		}
 	})
-	s.Nodes[1].RegisterBlockSentListener(func(p peer.ID, r graphsync.RequestData, bd graphsync.BlockData) {
+	s.Nodes[NodeResp].RegisterBlockSentListener(func(p peer.ID, r graphsync.RequestData, bd graphsync.BlockData) {
 		s.mu.Lock()
 		s.logLocked(Event{Kind: EvSentListener, Side: 1, Req: s.reqIndex(r.ID()), Cid: s.W.names[bd.Link().(cidlink.Link).Cid], Index: bd.Index(), OnWire: bd.BlockSizeOnWire() > 0})
 		s.mu.Unlock()
 	})
-	s.Nodes[0].RegisterIncomingBlockHook(func(p peer.ID, rd graphsync.ResponseData, bd graphsync.BlockData, ha graphsync.IncomingBlockHookActions) {
-		s.mu.Lock()
-		idx := s.reqIndex(rd.RequestID())
-		s.nReqBlock[idx]++
-		nth := s.nReqBlock[idx]
-		s.logLocked(Event{Kind: EvReqHook, Side: 0, Req: idx, Cid: s.W.names[bd.Link().(cidlink.Link).Cid], Index: bd.Index(), OnWire: bd.BlockSizeOnWire() > 0})
-		var rr *ReqRun
-		if idx >= 0 {
-			rr = s.Reqs[idx]
+	for _, node := range []int{NodeA, NodeB} {
+		node := node
+		if s.Nodes[node] == nil {
+			continue
 		}
-		s.mu.Unlock()
-		if s.OnReqBlock != nil && rr != nil {
-			s.OnReqBlock(rr, nth, bd, ha)
-		}
-		if idx >= 0 && idx < len(s.ReqHookGate) {
-			s.ReqHookGate[idx].Pass()
-		}
-	})
+		s.Nodes[node].RegisterIncomingBlockHook(func(p peer.ID, rd graphsync.ResponseData, bd graphsync.BlockData, ha graphsync.IncomingBlockHookActions) {
+			s.mu.Lock()
+			idx := s.reqIndex(rd.RequestID())
+			s.nReqBlock[idx]++
+			nth := s.nReqBlock[idx]
+			s.logLocked(Event{Kind: EvReqHook, Side: node, Req: idx, Cid: s.W.names[bd.Link().(cidlink.Link).Cid], Index: bd.Index(), OnWire: bd.BlockSizeOnWire() > 0})
+			var rr *ReqRun
+			if idx >= 0 {
+				rr = s.Reqs[idx]
+			}
+			s.mu.Unlock()
+			if s.OnReqBlock != nil && rr != nil {
+				s.OnReqBlock(rr, nth, bd, ha)
+			}
+			if idx >= 0 && idx < len(s.ReqHookGate) {
+				s.ReqHookGate[idx].Pass()
+			}
+		})
+	}
 	return s
 }
 
 // AddRequest registers a request slot (so that its ID is known to the log) without starting it.
 func (s *Sim) AddRequest(q *Query, exts ...graphsync.ExtensionData) *ReqRun {
+	return s.AddRequestAt(NodeA, q, exts...)
+}
+
+// AddRequestAt: the request will be issued by node (NodeA or NodeB).
+func (s *Sim) AddRequestAt(node int, q *Query, exts ...graphsync.ExtensionData) *ReqRun {
 	s.mu.Lock()
 	defer s.mu.Unlock()
-	r := &ReqRun{Idx: len(s.Reqs), Q: q, ID: graphsync.NewRequestID(), Exts: exts}
+	r := &ReqRun{Idx: len(s.Reqs), Node: node, Q: q, ID: graphsync.NewRequestID(), Exts: exts}
 	s.Reqs = append(s.Reqs, r)
 	s.ids[r.ID] = r.Idx
 	return r
@@ -654,7 +722,7 @@ func (s *Sim) Start(r *ReqRun) {
 	ctx, cancel := context.WithCancel(context.WithValue(s.Ctx, graphsync.RequestIDContextKey{}, r.ID))
 	r.cancelFn = cancel
 	r.Started = true
-	pc, ec := s.Nodes[0].Request(ctx, RespPeer, cidlink.Link{Cid: s.W.D.Cids[r.Q.Root]}, r.Q.Sel, r.Exts...)
+	pc, ec := s.Nodes[r.Node].Request(ctx, RespPeer, cidlink.Link{Cid: s.W.D.Cids[r.Q.Root]}, r.Q.Sel, r.Exts...)
 	go func() {
 		for p := range pc {
 			s.mu.Lock()
@@ -721,13 +789,10 @@ func (s *Sim) Deliver(dir int) *Packet {
 	}
 	p := s.fifo[dir][0]
 	s.fifo[dir] = s.fifo[dir][1:]
-	p.DelivSeq = s.logLocked(Event{Kind: EvDeliver, Side: 1 - dir, Req: -1, Pkt: p})
+	from, to := dirEnds(dir)
+	p.DelivSeq = s.logLocked(Event{Kind: EvDeliver, Side: to, Req: -1, Pkt: p})
 	s.mu.Unlock()
-	from := ReqPeer
-	if dir == 1 {
-		from = RespPeer
-	}
-	s.eps[1-dir].recv.ReceiveMessage(s.Ctx, from, p.Msg)
+	s.eps[to].recv.ReceiveMessage(s.Ctx, peerOfNode(from), p.Msg)
 	return p
 }
 
@@ -742,7 +807,7 @@ func (s *Sim) Impl(side int) *gsimpl.GraphSync { return s.Nodes[side].(*gsimpl.G
 
 // RequestorState of request r as the request manager reports it (-1 = not tracked).
 func (s *Sim) RequestorState(r *ReqRun) int {
-	ps := s.Impl(0).PeerState(RespPeer)
+	ps := s.Impl(r.Node).PeerState(RespPeer)
 	if st, ok := ps.OutgoingState.RequestStates[r.ID]; ok {
 		return int(st)
 	}
@@ -752,7 +817,7 @@ func (s *Sim) RequestorState(r *ReqRun) int {
 // ResponderState of request r as the response manager reports it (-1 = not tracked); active = its
 // task is executing on a worker.
 func (s *Sim) ResponderState(r *ReqRun) (state int, active bool) {
-	ps := s.Impl(1).PeerState(ReqPeer)
+	ps := s.Impl(NodeResp).PeerState(peerOfNode(r.Node))
 	state = -1
 	if st, ok := ps.IncomingState.RequestStates[r.ID]; ok {
 		state = int(st)
